@@ -322,32 +322,11 @@ func (c *compiler) compileType(y *Type, parent Leafable, isUnion bool) error {
 	}
 
 	if y.format == val.FmtEnum || y.format == val.FmtEnumList {
-		y.enum = make(val.EnumList, len(y.enums))
-		nextId := 0
-		for i, item := range y.enums {
-			if item.val > 0 {
-				nextId = item.val
-			} else {
-				item.val = nextId
-			}
-			y.enum[i] = val.Enum{
-				Id:    nextId,
-				Label: item.ident,
-			}
-			nextId++
-		}
+		y.enum = numberEnums(y.enums)
 	}
 
 	if y.format == val.FmtBits || y.format == val.FmtBitsList {
-		nextPos := 0
-		for _, item := range y.bits {
-			if item.Position > 0 {
-				nextPos = item.Position
-			} else {
-				item.Position = nextPos
-			}
-			nextPos++
-		}
+		numberBits(y.bits)
 	}
 
 	return nil
@@ -362,6 +341,39 @@ func inheritFromTypedef(parent Leafable, tdef *Typedef) {
 	}
 	if parent.Units() == "" {
 		parent.setUnits(tdef.Units())
+	}
+}
+
+// numberEnums assigns the values of RFC 7950 9.6.4.2: a stated value is kept; otherwise 0 for the
+// first enum and one more than the highest value so far for every other.
+func numberEnums(enums []*Enum) val.EnumList {
+	list := make(val.EnumList, len(enums))
+	highest := -1
+	for i, item := range enums {
+		if !item.valSet {
+			item.val = highest + 1
+		}
+		if item.val > highest {
+			highest = item.val
+		}
+		list[i] = val.Enum{
+			Id:    item.val,
+			Label: item.ident,
+		}
+	}
+	return list
+}
+
+// numberBits assigns the positions of RFC 7950 9.7.4.2 the same way.
+func numberBits(bits []*Bit) {
+	highest := -1
+	for _, item := range bits {
+		if !item.posSet {
+			item.Position = highest + 1
+		}
+		if item.Position > highest {
+			highest = item.Position
+		}
 	}
 }
 
